@@ -30,6 +30,9 @@ ASSUMPTIONS = [
     "A-STDLIB stdlib base-class constructors / Executor.shutdown / Thread / Event / RLock / Condition / weakref / partial / namedtuple behave as documented (modelled, not verified); "
     "the MODEL of concurrent.futures.Future itself is no longer assumed: contracts/c_stdlib.py proves, on every run, that the real methods of concurrent/futures/_base.py of the "
     "suite's interpreter refine it (sequentially per method; atomicity from `with self._condition`, checked statically)",
+    "A-CONT dicts and sets are well-formed (len >= 0, len = 0 => no members) whatever a cut loop did to them; set(sequence) has between 1 (if any) and len(sequence) members",
+    "A-WEAK whether a weak reference is still alive is an uninterpreted predicate of (reference, instant of the call); A-TB objects reachable only through "
+    "traceback frames of stored exceptions are not part of the heap model (reclamation clauses of C12 do not see them)",
 ]
 
 
@@ -182,6 +185,11 @@ def main(argv):
         solver_s += r.get("solver_s", 0.0)
         if r.get("file"):
             functions[r["func"]] = {"file": r["file"], "lines": [r["line_from"], r["line_to"]], "sha256": r["file_sha256"]}
+        # self-check of the sidecar: a clause tagged with a property its unit is not registered for would silently never be checked
+        # for that property (units are selected by their own list)
+        stray = sorted(set(t for ob in r["obligations"] for t in (ob.get("props") or []) if t not in r["props"]))
+        if stray:
+            errors.append((r["unit"], "contract bug: clauses tagged %s but the unit is registered for %s only" % (stray, sorted(r["props"])), ""))
         for ob in r["obligations"]:
             if not has_prop(reg, ob.get("props") or r["props"], prop):
                 continue
